@@ -171,6 +171,177 @@ def mutate(rng, dump, dg):
     return d, "fallback"
 
 
+# ---- literals that differ in *structure*, and keywords present with an empty / falsy value vs absent ----------------------
+# (the quantifier: pairs differing in one keyword / one literal.  A literal is any JSON value: the pair may differ by one member of
+# an object literal, one element of an array literal, the kind of an empty container; a keyword may be there with a value that is
+# empty or falsy in Python - `const: []`, `enum: []`, `default: {}`, `items: []`, `required: []` - which is not the same as absent.)
+SCALARS = [None, True, False, 0, 1, 2, -1, 1.5, 0.0, "", "a", "k"]
+FALSY_LITERALS = [[], {}, "", 0, 0.0, False, None]
+LITERAL_KEYS = ["a", "b", "k", "z", "", "a b"]
+
+
+def container_literal(rng, sg):
+    """a JSON array or object literal (nested up to three levels)"""
+    for _ in range(30):
+        v = sg.json_value(3)
+        if isinstance(v, (list, dict)) and (v or rng.random() < 0.3):
+            return v
+    return {"k": 1}
+
+
+def containers_of(v, path=(), out=None):
+    out = [] if out is None else out
+    if isinstance(v, dict):
+        out.append(path)
+        for k, x in v.items():
+            containers_of(x, path + (k,), out)
+    elif isinstance(v, list):
+        out.append(path)
+        for i, x in enumerate(v):
+            containers_of(x, path + (i,), out)
+    return out
+
+
+def restructure(rng, v):
+    """(w, how): a copy of the literal `v` that differs from it at exactly one point of its structure"""
+    w = copy.deepcopy(v)
+    spots = containers_of(w)
+    if not spots:
+        return rng.choice([x for x in SCALARS + [[], {}] if x is not v and not (x == v and type(x) is type(v))]), "scalar-replaced"
+    path = rng.choice(spots)
+    parent, c = None, w
+    for p in path:
+        parent, c = c, c[p]
+
+    def put(new):
+        nonlocal w
+        if parent is None:
+            w = new
+        else:
+            parent[path[-1]] = new
+    if isinstance(c, dict):
+        how = rng.choice(["member-added", "member-added", "member-dropped", "member-changed", "members-reordered", "empty-kind"])
+        if how == "member-added" or not c:
+            if not c and how == "empty-kind":
+                put([])
+                return w, "empty-object-to-empty-array"
+            fresh = next(k for k in LITERAL_KEYS + ["k%d" % len(c)] if k not in c)
+            c[fresh] = rng.choice(SCALARS + [[], {}])
+            return w, "object-member-added"
+        if how == "member-dropped":
+            del c[rng.choice(list(c))]
+            return w, "object-member-dropped"
+        if how == "members-reordered" and len(c) >= 2:
+            put(dict(reversed(list(c.items()))))
+            return w, "object-members-reordered"
+        k = rng.choice(list(c))
+        c[k] = rng.choice([x for x in SCALARS + [[], {}] if not (x == c[k] and type(x) is type(c[k]))])
+        return w, "object-member-changed"
+    how = rng.choice(["element-added", "element-added", "element-dropped", "element-changed", "empty-kind"])
+    if how == "element-added" or not c:
+        if not c and how == "empty-kind":
+            put({})
+            return w, "empty-array-to-empty-object"
+        c.append(rng.choice(SCALARS + [[], {}]))
+        return w, "array-element-added"
+    if how == "element-dropped":
+        c.pop(rng.randrange(len(c)))
+        return w, "array-element-dropped"
+    i = rng.randrange(len(c))
+    c[i] = rng.choice([x for x in SCALARS + [[], {}] if not (x == c[i] and type(x) is type(c[i]))])
+    return w, "array-element-changed"
+
+
+def literal_slots(node):
+    """the literal keywords the node's class takes"""
+    cls = node["cls"]
+    if cls == "Nothing":
+        return []
+    if cls in ("AnyOf", "OneOf", "AllOf", "Not"):
+        return ["default"]
+    return ["const", "default", "enum"]
+
+
+def empty_keyword_options(node):
+    """keywords that may be given an empty value on this node and are absent from it now: (name, setter)"""
+    cls, kw = node["cls"], node.get("kw", {})
+    out = []
+    if cls in ("Element", "Array") and "itemsKind" not in kw:
+        out.append("items")
+    if cls in ("Element", "Object") and "required" not in kw:
+        out.append("required")
+    if cls == "Element" and not kw.get("hasProps"):
+        out.append("properties")
+    if cls in ("Element", "Object") and not kw.get("hasPatProps"):
+        out.append("patternProperties")
+    if cls in ("Element", "Object") and not kw.get("hasDeps"):
+        out.append("dependencies")
+    return out
+
+
+def literal_pair(rng, dg, dump):
+    """(da, db, kind, probe values): one tree twice, the two differing in the structure of one literal, or in one keyword that
+    is absent on one side and present with an empty / falsy value on the other"""
+    da = copy.deepcopy(dump)
+    spots = [p for p in nodes(da) if get(da, p)["cls"] != "Nothing"]
+    if not spots:
+        da = {"cls": "Element", "kw": {}}
+        spots = [()]
+    mode = rng.choice(["structure", "structure", "empty-vs-absent", "empty-keyword"])
+    if mode == "empty-keyword":
+        spots = [p for p in spots if empty_keyword_options(get(da, p))] or spots
+    path = () if rng.random() < 0.4 and () in spots else rng.choice(spots)
+    na = get(da, path)
+    na.setdefault("kw", {})
+    slots = literal_slots(na)
+    probes = []
+    if mode == "empty-keyword":
+        opts = empty_keyword_options(na)
+        if not opts:
+            mode = "empty-vs-absent"
+        else:
+            name = rng.choice(opts)
+            if name == "items" and "addItems" not in na and rng.random() < 0.6:
+                na["kw"]["addItemsB"] = False        # both sides: what the (empty) tuple does not cover is refused
+            db = copy.deepcopy(da)
+            nb = get(db, path)
+            if name == "items":
+                nb["kw"]["itemsKind"] = "tuple"
+            elif name == "required":
+                nb["kw"]["required"] = []
+            else:
+                nb["kw"][{"properties": "hasProps", "patternProperties": "hasPatProps", "dependencies": "hasDeps"}[name]] = True
+            return da, db, "empty-" + name + "-vs-absent", [[], [1], ["a", None], {}, {"a": 1}]
+    slot = rng.choice(slots)
+    if mode == "empty-vs-absent":
+        db = copy.deepcopy(da)
+        nb = get(db, path)
+        if slot == "enum":
+            na["kw"].pop("enum", None)
+            nb["kw"]["enum"] = []
+            return da, db, "empty-enum-vs-absent", [None, "a", [], {}]
+        v = rng.choice(FALSY_LITERALS)
+        na["kw"].pop(slot, None)
+        nb["kw"][slot] = core.enc_val(v)
+        return da, db, "falsy-" + slot + "-vs-absent", [v, [v], {"a": v}, [], {}, [1], {"a": 1}, "", "a", None]
+    v = container_literal(rng, dg.sg)
+    w, how = restructure(rng, v)
+    db = copy.deepcopy(da)
+    nb = get(db, path)
+    if slot == "enum":
+        others = [core.enc_val(rng.choice(SCALARS)) for _ in range(rng.choice([0, 1, 2]))]
+        at = rng.randrange(len(others) + 1)
+        na["kw"]["enum"] = others[:at] + [core.enc_val(v)] + others[at:]
+        nb["kw"]["enum"] = copy.deepcopy(others[:at]) + [core.enc_val(w)] + copy.deepcopy(others[at:])
+    else:
+        na["kw"][slot] = core.enc_val(v)
+        nb["kw"][slot] = core.enc_val(w)
+    probes = [v, w, [v], [w], {"a": v}, {"a": w}]
+    if rng.random() < 0.5:
+        da, db = db, da            # which side holds the larger literal must not matter
+    return da, db, "literal-" + how, probes
+
+
 def normalize_titles(doc):
     """Compare serializations as JSON Schemas, not as Python objects: member order of objects is immaterial,
     numbers compare by value (2 == 2.0, but true != 1), `required` is a set; class names are not part of
@@ -451,6 +622,9 @@ def run(ctx, scale=1.0):
                 "bool/number lookalike inside a literal, property required/source, element class, property order, enum order, description, "
                 "added sub-element, explicit required list); pairs sharing one element object; pairs of classes with one body whose keywords "
                 "arrive by inheritance (11 keywords x same / deeper / absent); used-then-reconfigured vs fresh; 6+ values per equal pair; "
+                "pairs differing in the structure of one const / default / enum literal (object member or array element added, dropped, changed, "
+                "reordered; empty array vs empty object) and pairs where one keyword is absent on one side and empty or falsy on the other "
+                "(const, default, enum, items, required, properties, patternProperties, dependencies); "
                 "a case is one pair; non-trivial = mutated; distinct by SHA-256")
     stats = {}
     drv = core.Driver()
@@ -560,11 +734,22 @@ def run(ctx, scale=1.0):
                 wrap = lambda x: {"cls": "Array", "kw": {"itemsKind": "single"}, "items": [x]}
                 da, db, vals = wrap(da), wrap(db), [[v] for v in vals]
             check_pair(drv, da, db, "num-retype", vals, out, stats)
+        # literals that differ in structure (one member / element more or less, another empty container), and keywords that are
+        # present with an empty or falsy value on one side and absent on the other
+        for i in range(int(260 * scale)):
+            base = unique_class_names(dg.dump(rng.choice([0, 1, 2, 2])))
+            da, db, kind, probes = literal_pair(rng, dg, base)
+            stats["literal-structure-pairs"] = stats.get("literal-structure-pairs", 0) + 1
+            check_pair(drv, da, db, kind, probes + vg.values(dump_to_schema(da), 4) + [1, "a", None, [], {}, [1], {"a": 1}], out, stats,
+                       served_first=(i % 7 == 3))
         # the shape of the recorded finding, and its consequence through de-duplication
         check_pair(drv, {"cls": "Element", "kw": {"const": True}}, {"cls": "Element", "kw": {"const": {"i": "1"}}}, "lookalike",
                    [True, 1, 1.0, 0], out, stats)
     finally:
         drv.close()
+    # report the most telling input first: a broken law of `==` or a value the two sides disagree on, before a difference in
+    # the serialized text only (stable: the order within each group is the order of discovery)
+    out.failures.sort(key=lambda f: 1 if f.get("what", "").startswith("equal elements serialize") else 0)
     out.stats = stats
     return out
 
